@@ -2,7 +2,7 @@
 From Coq Require Import Reals QArith PrimFloat Lra Lia.
 From Coquelicot Require Import Coquelicot.
 From EsVerif.Common Require Import Base.
-From EsVerif.C17 Require Import Model Dyadic Spec Proofs Integral CheckProofs.
+From EsVerif.C17 Require Import Model Dyadic Spec Proofs Integral CheckProofs FillProofs.
 Import RM.
 
 Local Open Scope R_scope.
@@ -50,6 +50,19 @@ Theorem C17_mirror_symmetric : forall n xm xl zs wl,
     nth i xs 0 + nth (n - 1 - i) xs 0 = 2 * xm /\ nth i ws 0 = nth (n - 1 - i) ws 0.
 Proof. exact mirror_symmetric. Qed.
 
+(* The C fill loop (cgauleg_pywrap.c:74-77) as what it is — m = (npts+1)/2 passes, each writing
+   a[i-1] and a[npts+1-i-1] of a zero-initialised array, the middle entry of an odd rule twice —
+   produces exactly the mirrored fill the model (and C17_mirror_symmetric) is stated for; hence
+   gauleg with its arrays produced by those writes is the model's gauleg. *)
+Theorem C17_fill_loop_is_mirror_fill : forall (A : Type) (d : A) n (lo hi : list A),
+  (1 <= n)%nat -> length lo = Z.to_nat (F.m_of (Z.of_nat n)) -> length hi = length lo ->
+  F.fill_loop (Z.of_nat n) 1 lo hi (repeat d n) = mirror_fill n lo hi.
+Proof. intros A. exact (@fill_loop_is_mirror_fill A). Qed.
+
+Theorem C17_gauleg_array_writes : forall orig x1 x2 npts coss,
+  F.gauleg_gen_w orig x1 x2 npts coss = F.gauleg_gen orig x1 x2 npts coss.
+Proof. exact gauleg_writes_eq. Qed.
+
 (* The integrators return the rule's weighted sum over the mapped abscissae; for tabulated data,
    of the linearly interpolated values. *)
 Theorem C17_integrator_is_weighted_sum :
@@ -86,6 +99,23 @@ Theorem C17_tensor_on_grid_values : forall x wx y wy x1 x2 y1 y2 f,
   integrate_vals2 wx wy x1 x2 y1 y2
     (flat_map (fun yi => map (fun xj => f (xj * ((x2 - x1) / 2) + (x2 + x1) / 2) (yi * ((y2 - y1) / 2) + (y2 + y1) / 2)) x) y).
 Proof. exact integrate_func2_vals. Qed.
+
+(* QGauss2 array shapes under numpy broadcasting.  Repaired _setup: for ALL nx, ny >= 1 the weight
+   grid and the summed integrand have the mesh's shape (ny, nx).  Unchanged _setup (weight grids
+   allocated (nx, ny)): right shapes iff nx = ny (nx, ny >= 2); QGauss2(3,4) cannot be
+   constructed; QGauss2(1,3) sums a (3,3) array for a (3,1) mesh. *)
+Theorem C17_qgauss2_shapes_repaired : forall nx ny, (1 <= nx)%Z -> (1 <= ny)%Z ->
+  F.wgrid_shape false nx ny = Some (F.mesh_shape nx ny) /\
+  F.integrand_shape false nx ny = Some (F.mesh_shape nx ny).
+Proof. exact qgauss2_shapes_repaired. Qed.
+
+Theorem C17_qgauss2_unchanged_setup_refuted :
+  (forall nx ny, (2 <= nx)%Z -> (2 <= ny)%Z ->
+     (F.integrand_shape true nx ny = Some (F.mesh_shape nx ny) <-> nx = ny)) /\
+  F.wgrid_shape true 3 4 = None /\ F.integrand_shape true 1 3 = Some (3, 3)%Z.
+Proof.
+  split; [exact qgauss2_shapes_unchanged_iff | exact qgauss2_shapes_unchanged_refuted].
+Qed.
 
 (* Cache: for every history of calls whose explicit point counts gauleg accepts, the object
    (with its cache) returns exactly what the cache-less specification returns: every result is
